@@ -495,11 +495,15 @@ func runC20(c *worker.Ctx) {
 	// fetcher's on-disk cache and a second, fault-free run follows.
 	cacheHistory := !terra && c.T.Bool(1, 3)
 	apiHealthy := false
-	var second struct {
+	type laterRun struct {
 		ran, fromCache bool
 		snips          *snippet.Snippets
 		err            error
 	}
+	var second, third, fourth laterRun
+	refreshHistory := cacheHistory && c.T.Bool(1, 2)
+	var secondR *simnet.Resources // what the second run had to be faithful to, when r was edited after it
+	edited := ""
 	if cacheHistory {
 		dir, err := os.MkdirTemp(".", "c20cache-")
 		if err != nil {
@@ -652,6 +656,32 @@ func runC20(c *worker.Ctx) {
 					} else {
 						second.snips, second.err = snippet.Fetch(f2)
 					}
+					if refreshHistory && second.snips != nil && second.err == nil {
+						// ... the runner caches what it has; then an item changes on the
+						// Fastly side (items and entries are not versioned: the service
+						// version stays), the user runs with --refresh, and once more
+						// without.
+						f2.WriteCache(second.snips)
+						secondR = cloneResources(r)
+						edited = editUnversioned(c, r)
+						f3 := remote.NewFastlyApiFetcher("SID", "KEY", 5*time.Second)
+						third.ran = true
+						if cached := f3.LookupCache(true); cached != nil {
+							third.snips, third.fromCache = cached, true
+						} else {
+							third.snips, third.err = snippet.Fetch(f3)
+						}
+						if third.snips != nil && third.err == nil {
+							f3.WriteCache(third.snips)
+						}
+						f4 := remote.NewFastlyApiFetcher("SID", "KEY", 5*time.Second)
+						fourth.ran = true
+						if cached := f4.LookupCache(false); cached != nil {
+							fourth.snips, fourth.fromCache = cached, true
+						} else {
+							fourth.snips, fourth.err = snippet.Fetch(f4)
+						}
+					}
 				}
 				finished = true
 			})
@@ -758,7 +788,11 @@ func runC20(c *worker.Ctx) {
 		}
 	}
 	if len(res.Violations) == 0 {
-		judge(r, snips, ferr, "")
+		rFirst := r
+		if secondR != nil {
+			rFirst = secondR // r was edited after the second run: the first two runs saw the earlier state
+		}
+		judge(rFirst, snips, ferr, "")
 		if second.ran && len(res.Violations) == 0 {
 			res.Probe("second_run_after_cache_write")
 			if second.fromCache {
@@ -777,9 +811,27 @@ func runC20(c *worker.Ctx) {
 			} else {
 				how += "the first run had succeeded) "
 			}
-			judge(r, second.snips, second.err, how)
+			r2 := r
+			if secondR != nil {
+				r2 = secondR
+			}
+			judge(r2, second.snips, second.err, how)
 			for i := range res.Violations {
 				res.Violations[i].Key = strings.Replace(res.Violations[i].Key, "C20/", "C20/second-run:", 1)
+			}
+			for k, lr := range []laterRun{third, fourth} {
+				if !lr.ran || len(res.Violations) > 0 {
+					continue
+				}
+				which := []string{"run with --refresh", "run without --refresh after the refreshed one"}[k]
+				res.Probe([]string{"refresh_run", "run_after_refresh"}[k])
+				if lr.fromCache {
+					res.Probe([]string{"refresh_run_served_from_cache", "run_after_refresh_served_from_cache"}[k])
+				}
+				judge(r, lr.snips, lr.err, fmt.Sprintf("(%s, served from the cache file: %v; before it %s on the Fastly side, the service version unchanged, and the cache held the earlier state) ", which, lr.fromCache, edited))
+				for i := range res.Violations {
+					res.Violations[i].Key = strings.Replace(res.Violations[i].Key, "C20/", "C20/after-refresh:", 1)
+				}
 			}
 			injected, outcome = keepInjected, keepOutcome
 		}
@@ -843,4 +895,32 @@ func keysOf(m map[string]bool) []string {
 	}
 	sort.Strings(ks)
 	return ks
+}
+
+func cloneResources(r *simnet.Resources) *simnet.Resources {
+	var out simnet.Resources
+	if err := json.Unmarshal(mustJSON(r), &out); err != nil {
+		panic("c20: cannot clone the resource set: " + err.Error())
+	}
+	return &out
+}
+
+// editUnversioned changes something Fastly does not version: a dictionary
+// item's value, or an ACL entry. It says what it did.
+func editUnversioned(c *worker.Ctx, r *simnet.Resources) string {
+	for i := range r.Dicts {
+		if !r.Dicts[i].WriteOnly && len(r.Dicts[i].Items) > 0 {
+			k := c.T.Draw(len(r.Dicts[i].Items))
+			r.Dicts[i].Items[k].Value = fmt.Sprintf("edited-%d", c.T.Draw(1000))
+			return fmt.Sprintf("item %d of dictionary %s got a new value", k, r.Dicts[i].Name)
+		}
+	}
+	for i := range r.Acls {
+		if len(r.Acls[i].Entries) > 0 {
+			k := c.T.Draw(len(r.Acls[i].Entries))
+			r.Acls[i].Entries[k].Negated = !r.Acls[i].Entries[k].Negated
+			return fmt.Sprintf("entry %d of ACL %s had its negation flipped", k, r.Acls[i].Name)
+		}
+	}
+	return "nothing could be edited (no items or entries)"
 }
